@@ -113,6 +113,8 @@ def run_shard(desc, env):
     rnd = env.rng('c01', desc['i'])
     nctx, per = (12, 14) if env.tier == 'quick' else (220, 16)
     cases = ec.build_cases(rnd, env.tier, nctx, per, big=(env.tier != 'quick'), mutants=0.0)
+    if desc['i'] == 0:
+        cases = ec.inlining_cases() + cases
     for cs, cr in env.execute(cases, chunk=12):
         judge(res, cs, cr)
     return res
